@@ -5,7 +5,7 @@ ROOT = os.path.dirname(os.path.dirname(os.path.abspath(__file__)))
 sys.path.insert(0, os.path.join(ROOT, "lib"))
 from props import PROPS
 props = [json.loads(l)["id"] for l in open(os.path.join(ROOT, "properties.jsonl"))]
-hook_commits = ["25c01d2"]
+hook_commits = ["25c01d2", "f87a3ec"]
 m = {
     "version": 1,
     "setup_cmd": "./check setup",
